@@ -607,8 +607,9 @@ def _unpacked_conversion(prog, fi, st):
         return None
     got = _elementwise_conversion(prog, fi, st.value)
     if got is None:
-        if isinstance(st.value, (ast.Tuple, ast.List)):
-            return None
+        targets = [t.id for t in st.targets[0].elts if isinstance(t, ast.Name)]
+        if isinstance(st.value, (ast.Tuple, ast.List)) or not all(t in COMPS and t in fi.params for t in targets):
+            return None                         # new names for derived quantities (eigenvalues, extremes): not a conversion
         raise AnalysisError("%s: %r - the components are re-bound together in a form that is not recognised as an "
                             "element-wise conversion" % (fi.qualname, norm_text(st)[:80]))
     return got
